@@ -105,6 +105,11 @@ def gen_real(rng):
         exp = max(-60, min(60, exp))
     mant = rng.choice([0, 1, 3, 255, 256, 65535, 65537, (1 << 24) + 1, (1 << 32) - 1, 1 << 32, (1 << 32) + 1,
                        (1 << 53) - 1, 1 << 53, rng.randrange(1 << rng.randint(1, 53))])
+    if rng.random() < 0.2:
+        # a long mantissa (9..16 octets) whose value is still exactly representable: m * 2^k, m < 2^53
+        k = rng.choice([11, 12, 40, 58, 59, 64, 70])
+        mant = rng.randrange(1, 1 << rng.choice([1, 12, 53])) << k
+        exp = max(-60, min(60, exp)) - (k if base == 2 else 0)
     fmt = rng.choice([None, None, 0, 1, 2, 3])
     if fmt is not None and fmt < 3:
         n = fmt + 1
